@@ -21,7 +21,7 @@ PLAN = {
         "note": "Trusted: rand's random_range(0..upper) is uniform on [0, upper) and panics iff upper == 0 (stub contract); SC atomics; "
                 "sequential histories only (pushes racing a drain into the retired side are lost by design and not decided); count < usize::MAX.",
     },
-    "min_obligations": {"quick": 1, "thorough": 1},
+    "min_obligations": {"quick": 5, "thorough": 5},
     "assumptions": [
         "fastrand(upper) is replaced by a stub carrying rand::Rng::random_range's contract: requires upper > 0 (rand panics on an empty range), "
         "returns an arbitrary r < upper; uniformity/independence of the thread-local Xoshiro256** stream is assumed, not verified",
@@ -35,6 +35,10 @@ PLAN = {
         "the retention lemma (uniform.verus.rs) is a spec-level model of Algorithm R whose step is exactly the push contract checked by Kani "
         "(draw from idx+1 equally likely values, replace slot r iff r < capacity); it is not extracted from the source text",
         "panic = failure; unwinding not modelled",
+    ],
+    "verus": [
+        # spec-level lemma (no source items): kept(c,i,n)/hist(c,n) == c/n for every position i <= n, n >= c, by induction
+        {"template": "uniform.verus.rs", "tier": "quick", "rlimit": 30, "min_functions": 2},
     ],
     "kani": [{
         "crate": "metrics-util",
@@ -53,7 +57,10 @@ PLAN = {
               kind="bounded", bound="capacity <= 4 (count, value, slots, draw unrestricted)", replay=False, covers=6, timeout=900),
             H("c16_push_no_panic",
               "push never panics for any capacity (incl. 0), count < usize::MAX and value: the random range requested is never empty",
-              kind="bounded", bound="capacity <= 4", replay=True, covers=3),
+              kind="bounded", bound="capacity <= 4", replay=True, covers=0),
+            H("c16_first_sampled_push",
+              "the (cap+1)-th item draws from exactly cap+1 values and is kept iff the draw < cap (probability cap/(cap+1)); replay = 256 real-PRNG trials must drop it at least once",
+              kind="bounded", bound="capacity <= 4", replay=True, covers=2),
             H("c16_drain_contract",
               "arbitrary pre-state: yields exactly slots [0, min(count,cap)) in order then None; len counts down; rate == yielded/count (1.0 if nothing dropped); "
               "Drain::drop resets count to 0 (next drain empty), slots untouched",
